@@ -25,6 +25,8 @@ var c07WorkFamilies = []string{
 	"selector-clauses", "locator-selector-clauses", "modifier-long-number",
 	"table-features", "table-qualifiers", "table-long-value", "table-long-join",
 	"genbank-features", "genbank-records", "genbank-references", "fasta-records", "fasta-long-description",
+	"genbank-origin-lf", "genbank-origin-crlf", "genbank-comment-lines", "genbank-keywords", "genbank-dblink", "genbank-definition-lines",
+	"genbank-contig-parts", "fasta-long-residues", "fasta-crlf", "table-order-of-complements", "loc-join-sites",
 }
 
 func WorkInput(family string, n int) []byte {
@@ -106,6 +108,92 @@ func WorkInput(family string, n int) []byte {
 		}
 		b := workGenBank("     gene            1..9\n                     /gene=\"g\"\n", 60, 1)
 		return bytes.Replace(b, []byte("FEATURES "), []byte(rf.String()+"FEATURES "), 1)
+	case "genbank-origin-lf", "genbank-origin-crlf":
+		b := workGenBank("", 60*n, 1)
+		if family == "genbank-origin-crlf" {
+			b = bytes.ReplaceAll(b, []byte("\n"), []byte("\r\n"))
+		}
+		return b
+	case "genbank-comment-lines", "genbank-keywords", "genbank-dblink", "genbank-definition-lines", "genbank-contig-parts":
+		var x strings.Builder
+		switch family {
+		case "genbank-comment-lines":
+			x.WriteString("COMMENT     first line\n")
+			for i := 0; i < n; i++ {
+				fmt.Fprintf(&x, "            comment line %d of many\n", i)
+			}
+		case "genbank-keywords":
+			x.WriteString("KEYWORDS    ")
+			for i := 0; i < n; i++ {
+				fmt.Fprintf(&x, "keyword%d; ", i)
+				if i%4 == 3 {
+					x.WriteString("\n            ")
+				}
+			}
+			x.WriteString("last.\n")
+		case "genbank-dblink":
+			x.WriteString("DBLINK      BioProject: PRJ0\n")
+			for i := 0; i < n; i++ {
+				fmt.Fprintf(&x, "            Db%d: ID%d\n", i, i)
+			}
+		case "genbank-definition-lines":
+			x.WriteString("DEFINITION  first\n")
+			for i := 0; i < n; i++ {
+				fmt.Fprintf(&x, "            definition line %d\n", i)
+			}
+			x.WriteString("            end.\n")
+		case "genbank-contig-parts":
+			x.WriteString("CONTIG      join(")
+			for i := 0; i < n; i++ {
+				if i > 0 {
+					x.WriteString(",")
+					if i%2 == 0 {
+						x.WriteString("\n            ")
+					}
+				}
+				fmt.Fprintf(&x, "AB%06d.1:1..%d", i, 100+i)
+			}
+			x.WriteString(")\n")
+		}
+		b := workGenBank("     gene            1..9\n                     /gene=\"g\"\n", 60, 1)
+		switch family {
+		case "genbank-keywords":
+			return bytes.Replace(b, []byte("KEYWORDS    .\n"), []byte(x.String()), 1)
+		case "genbank-definition-lines":
+			return bytes.Replace(b, []byte("DEFINITION  d.\n"), []byte(x.String()), 1)
+		case "genbank-contig-parts":
+			return bytes.Replace(b, []byte("ORIGIN      \n"), []byte(x.String()+"ORIGIN      \n"), 1)
+		}
+		return bytes.Replace(b, []byte("FEATURES "), []byte(x.String()+"FEATURES "), 1)
+	case "fasta-long-residues", "fasta-crlf":
+		sb.WriteString(">r description\n")
+		for i := 0; i < n; i++ {
+			sb.WriteString("acgtacgtacgtacgtacgtacgtacgtacgtacgtacgtacgtacgtacgtacgtacgtacgtacgtac\n")
+		}
+		if family == "fasta-crlf" {
+			return []byte(strings.ReplaceAll(sb.String(), "\n", "\r\n"))
+		}
+	case "table-order-of-complements":
+		sb.WriteString("     CDS             order(")
+		for i := 0; i < n; i++ {
+			if i > 0 {
+				sb.WriteString(",")
+				if i%2 == 0 {
+					sb.WriteString("\n                     ")
+				}
+			}
+			fmt.Fprintf(&sb, "complement(%d..%d)", 3*i+1, 3*i+2)
+		}
+		sb.WriteString(")\n                     /gene=\"g\"\n")
+	case "loc-join-sites":
+		sb.WriteString("join(")
+		for i := 0; i < n; i++ {
+			if i > 0 {
+				sb.WriteString(",")
+			}
+			fmt.Fprintf(&sb, "%d^%d", 3*i+1, 3*i+2)
+		}
+		sb.WriteString(")")
 	case "fasta-records":
 		for i := 0; i < n; i++ {
 			fmt.Fprintf(&sb, ">r%d description\nacgtacgtacgtacgt\n", i)
